@@ -178,10 +178,15 @@ class Verifier:
             return Opaque(hint)
         if tystr == "unbound":
             return _UNBOUND
+        pykind = None
+        if tystr.startswith("TupleSeq["):
+            tystr, pykind = "List[" + tystr[9:], "tuple"
         ty = parse_ty(tystr)
         v = fresh_value(I.ctx, ty, hint)
         if isinstance(v, SList):
             v.immutable = False
+            if pykind:
+                v.pykind = pykind
         return v
 
     def shape(self, name) -> Shape:
@@ -611,6 +616,9 @@ class Verifier:
         return o
 
     def type_of(self, I, v):
+        pol = self.c.callees.get("type")
+        if callable(pol):
+            return pol(I, v)
         raise Unsupported(f"type({v!r})")
 
     def id_of(self, I, v):
@@ -952,7 +960,11 @@ class Verifier:
                 env.vars["trace"] = gen_trace
             sub = _SubVerifier(self, c)
             for label, expr in c.ensures.items():
-                I.ctx.assume(sub.clause_bool(I, env, expr))
+                try:
+                    I.ctx.assume(sub.clause_bool(I, env, expr))
+                except Unsupported:
+                    # a helper clause over the callee's locals (ifdef/ifndef): not visible at a call site; assuming less is sound
+                    continue
             if is_gen:
                 return Obj("generator", {"trace": gen_trace, "value": result})
             return result
